@@ -684,8 +684,168 @@ def forms(ctx):
 
 
 
+# ----------------------------------------------------------------------------------------------- operation histories
+# Every product / sum of an object must be a function of its CURRENT value list only.  Objects are driven through
+# random histories over the list interface; before the first and after every mutation all applicable products are
+# taken (so that anything remembered from an earlier call would be used again) on the object itself, on a copy and
+# on an indexed element, and compared with the stateless NumPy reference on the current values.  The value list after
+# each history is compared with the Coq model `run` evaluated on integer tags (vm_compute).
+HIST_HDR = "From Coq Require Import List Arith.\nFrom SM Require Import Model.C20_Inertia.\nImport ListNotations.\n"
+
+
+def histories(ctx):
+    rng = ctx.rng
+    keys = list(CLS)
+    T = SE3(0.3, -0.2, 0.5) * SE3.Rx(0.4) * SE3.Rz(-1.1)
+    X = ad_np(np.asarray(T.A, float))
+    J = SpatialInertia(2.0, [0.1, -0.2, 0.3], np.diag([1.0, 2.0, 3.0]))
+    JA = np.asarray(J.A, float)
+    coq_terms, coq_expect = [], []
+
+    for rnd in range(ctx.n(300, 5000)):
+        k = keys[rnd % 4]
+        C = CLS[k]
+        pool = []                                            # tag -> 6-vector (the tag is the index)
+
+        def fresh(n=1):
+            """n new tagged values: a list of tags and the (6, n) array"""
+            tags = []
+            for _ in range(n):
+                pool.append(rng.normal(size=6) * 10 ** rng.uniform(-1, 1))
+                tags.append(len(pool) - 1)
+            return tags, np.column_stack([pool[t] for t in tags])
+
+        def obj_of(A):
+            return C(A[:, 0].copy()) if A.shape[1] == 1 else C(A.copy())
+
+        def tags_of(x):
+            out = []
+            for d in x.data:
+                hit = [t for t, p in enumerate(pool) if np.array_equal(np.asarray(d, float).reshape(6), p)]
+                out.append(hit[0] if len(hit) == 1 else -1)
+            return out
+
+        t0, A0 = fresh(1 if rng.random() < 0.5 else int(rng.integers(2, 4)))
+        x = obj_of(A0)
+        y0 = obj_of(fresh(A0.shape[1])[1])                   # an operand of the ORIGINAL length, kept for the whole history
+        hist, muts = [], []                                  # printable history, Coq mut terms
+        vm, ff, v0 = rng.normal(size=6), rng.normal(size=6), rng.normal(size=6)
+        Vm, Ff, V0 = SpatialVelocity(vm), SpatialForce(ff), SpatialVelocity(v0)
+        C0 = crm_np(v0)
+
+        def check(name, thunk, ref, want_cls, last):
+            key = f"hist:{name}:after-{last}"
+            ctx.case((key, rnd, len(hist)))
+            ctx.count('hist:' + name)
+            obs = observe(thunk)
+            ok = (obs[0] == 'Value' and obs[1] == want_cls and obs[2] == ref.shape[1] and close(columns(obs[3]), ref, 1e-12)[0])
+            if not ok:
+                got = columns(obs[3]).T.tolist() if obs[0] == 'Value' else obs
+                ctx.fail(key, f"{name} after the history {hist} is not the product of the CURRENT values: got {got}, "
+                         f"stateless reference {ref.T.tolist()}",
+                         {'class': C.__name__, 'initial_values': A0.T.tolist(), 'history': hist, 'observation': name,
+                          'got': got, 'reference_on_current_values': ref.T.tolist(),
+                          'fixed_operands': {'m': vm.tolist(), 'f': ff.tolist(), 'v0': v0.tolist()}})
+
+        def expect_raise(name, thunk, last):
+            key = f"hist:{name}:after-{last}"
+            ctx.case((key, rnd, len(hist)))
+            ctx.count('hist:' + name)
+            obs = observe(thunk)
+            if obs[0] != 'Raise':
+                ctx.fail(key, f"{name} after the history {hist} must be rejected (current lengths differ) but {kind_of(obs)}",
+                         {'class': C.__name__, 'history': hist, 'observation': name})
+
+        def products(last):
+            cur = columns(x)
+            n = cur.shape[1]
+            motion = k in MOTION
+            rcls = ('Acc' if motion else 'Frc')
+            if motion and n == 1:                            # x as LEFT operand of the cross products
+                M = crm_np(cur[:, 0])
+                check('cross-left', lambda: x.cross(Vm), (M @ vm)[:, None], 'Acc', last)
+                check('crf-left', lambda: x.cross(Ff), (-M.T @ ff)[:, None], 'Frc', last)
+                if k == 'Vel':
+                    check('matmul-left', lambda: x @ Vm, (M @ vm)[:, None], 'Acc', last)
+                    check('matmul-left-force', lambda: x @ Ff, (-M.T @ ff)[:, None], 'Frc', last)
+                check('copy-cross-left', lambda: C(x).cross(Vm), (M @ vm)[:, None], 'Acc', last)
+            Mr = C0 if motion else -C0.T                     # x as RIGHT operand
+            check('cross-right', lambda: V0.cross(x), Mr @ cur, rcls, last)
+            check('matmul-right', lambda: V0 @ x, Mr @ cur, rcls, last)
+            Mx = X if motion else X.T
+            check('se3mul', lambda: T * x, Mx @ cur, k, last)
+            check('copy-se3mul', lambda: T * C(x), Mx @ cur, k, last)
+            if motion:
+                check('imul', lambda: J * x, JA @ cur, 'Frc' if k == 'Acc' else 'Mom', last)
+            check('neg', lambda: -x, -cur, k, last)
+            if n >= 1:
+                B = fresh(n)[1]
+                y = obj_of(B)
+                check('add', lambda: x + y, cur + B, k, last)
+                check('sub', lambda: x - y, cur - B, k, last)
+                check('radd', lambda: y + x, B + cur, k, last)
+                check('rsub', lambda: y - x, B - cur, k, last)
+                j = int(rng.integers(n))
+                check('index-se3mul', lambda: T * x[j], Mx @ cur[:, j:j + 1], k, last)
+                if motion:
+                    check('index-cross-left', lambda: x[j].cross(Vm), (crm_np(cur[:, j]) @ vm)[:, None], 'Acc', last)
+            if n != len(y0):
+                expect_raise('add-old-length', lambda: x + y0, last)
+                expect_raise('sub-old-length', lambda: y0 - x, last)
+
+        products('construction')
+        for step in range(int(rng.integers(2, 7))):
+            n = len(x)
+            choices = ['append', 'extend', 'insert', 'reverse', 'clear+append']
+            if n >= 1:
+                choices += ['setitem', 'setitem', 'pop', 'del']
+            kind = choices[int(rng.integers(len(choices)))]
+            if kind == 'setitem':
+                j = int(rng.integers(n)); (t,), A = fresh()
+                x[j] = C(A[:, 0].copy()); muts.append(f"MSet {j} {t}"); hist.append(f"x[{j}] = {C.__name__}({A[:, 0].tolist()})")
+            elif kind == 'append':
+                (t,), A = fresh()
+                x.append(C(A[:, 0].copy())); muts.append(f"MAppend {t}"); hist.append(f"x.append({C.__name__}({A[:, 0].tolist()}))")
+            elif kind == 'extend':
+                ts, A = fresh(int(rng.integers(1, 4)))
+                x.extend(obj_of(A)); muts.append("MExtend [" + "; ".join(map(str, ts)) + "]"); hist.append(f"x.extend({C.__name__}({A.T.tolist()} as columns))")
+            elif kind == 'insert':
+                j = int(rng.integers(n + 1)); (t,), A = fresh()
+                x.insert(j, C(A[:, 0].copy())); muts.append(f"MInsert {j} {t}"); hist.append(f"x.insert({j}, {C.__name__}({A[:, 0].tolist()}))")
+            elif kind == 'pop':
+                j = int(rng.integers(n)); was = columns(x)[:, j:j + 1]
+                got = x.pop(j); muts.append(f"MPop {j}"); hist.append(f"x.pop({j})")
+                check('pop-result', lambda: got, was, k, 'pop')
+            elif kind == 'del':
+                j = int(rng.integers(n))
+                del x[j]; muts.append(f"MDel {j}"); hist.append(f"del x[{j}]")
+            elif kind == 'reverse':
+                x.reverse(); muts.append("MReverse"); hist.append("x.reverse()")
+            else:
+                (t,), A = fresh()
+                x.clear(); x.append(C(A[:, 0].copy())); muts += ["MClear", f"MAppend {t}"]; hist.append(f"x.clear(); x.append({C.__name__}({A[:, 0].tolist()}))")
+                kind = 'clear-append'
+            products(kind)
+        coq_terms.append(f"run [{'; '.join(map(str, t0))}]%nat [{'; '.join(muts)}]%nat")
+        coq_expect.append((tags_of(x), list(hist), A0.T.tolist(), C.__name__))
+
+    # the list part of the model against the implementation, on tags
+    vals = ctx.coq_eval(HIST_HDR, coq_terms, name='hist', chunk=500)
+    for v, (tags, hist, A0, cn) in zip(vals, coq_expect):
+        ctx.case(('hist-model', tuple(hist)))
+        ctx.count('hist:model-run')
+        want = 'Some [' + '; '.join(map(str, tags)) + ']'
+        if v.replace(' ', '') != want.replace(' ', ''):
+            ctx.fail('hist:value-list:model-differs', f"after the history {hist} the object holds the values tagged {tags}, the model `run` gives {v}",
+                     {'class': cn, 'initial_values': A0, 'history': hist, 'implementation_tags': tags, 'model': v})
+    # `+=` is UserList.__iadd__ (concatenation), not the element-wise sum: observed, not judged (reported to the maintainers of /verif)
+    a, b = SpatialVelocity([1, 2, 3, 4, 5, 6]), SpatialVelocity([1, 1, 1, 1, 1, 1])
+    a += b
+    ctx.stats['observed:iadd'] = f"len {len(a)} after v += w (element-wise sum would have len 1)"
+
+
 def run(ctx):
-    ctx.rule = ("obligations: theorems of theories/Props/C20.v, C20_inertia.v, C20_se3.v, C20_multi.v (values, over the traces regenerated from /repo "
+    ctx.rule = ("obligations: theorems of theories/Props/C20.v, C20_inertia.v, C20_se3.v, C20_multi.v, C20_hist.v (values, over the traces regenerated from /repo "
                 "and the hand model of the inertia constructor) and theories/Props/C20_tab.v (class/length tables); evaluations: Sym==Num / "
                 "T-num cases + every cell of the class/length tables run on the implementation + oracle evaluations of each law "
                 "at magnitudes 1e-6..1e6; a case is distinct by its (law or cell, input) signature")
@@ -699,12 +859,14 @@ def run(ctx):
     if rc != 0:
         ctx.fail('gen:compile', 'generated traces do not compile: ' + err[-800:], no_input=True)
         return
-    for f in ('C20.v', 'C20_inertia.v', 'C20_se3.v', 'C20_multi.v', 'C20_tab.v'):       # independent groups
+    for f in ('C20.v', 'C20_inertia.v', 'C20_se3.v', 'C20_multi.v', 'C20_hist.v', 'C20_tab.v'):       # independent groups
         ctx.prove('theories/Props/' + f)
     with ctx.timed('correspond'):
         sym_num(ctx, g, MOD, ctx.n(25, 400))
     with ctx.timed('tables'):
         tables(ctx)
+    with ctx.timed('histories'):
+        histories(ctx)
     with ctx.timed('forms'):
         forms(ctx)
     with ctx.timed('oracle'):
